@@ -96,6 +96,9 @@ def _rexpr(prog, fn, e, inners):
     if t == "comp":
         return "sum([t * %s for t in range(%s %% 4)])" % (_lit(e["c"]), _rexpr(prog, fn, e["x"], inners))
     if t == "call":
+        if e.get("form") == "attrchain":
+            # the reference sits in the argument list of a call inside an attribute chain
+            return "int(str(%s(x - 1)).strip())" % _ref(prog, mod, e["f"])
         return "%s(x - 1)" % _ref(prog, mod, e["f"])
     if t == "hidden":
         d = find(prog, e["f"])
@@ -137,7 +140,7 @@ def render_def(prog, d):
     return "".join(lines)
 
 
-HEADER = "import sys\nimport functools\nimport verif_rt\nfrom verif_rt import mf\n%s\n\ndef _verif_wrap(fn):\n    @functools.wraps(fn)\n    def w(*a, **k):\n        return fn(*a, **k)\n    return w\n\n"
+HEADER = "import sys\nimport functools\nimport verif_rt\nfrom verif_rt import mf\n%s\n\ndef _verif_wrap(fn):\n    @functools.wraps(fn)\n    def w(*_verif_a, **_verif_k):\n        return fn(*_verif_a, **_verif_k)\n    return w\n\n"
 
 
 def render_files(prog, order=None):
@@ -441,6 +444,8 @@ def program_strategy(max_fns=6, two_modules=True, allow_hidden=True, allow_expli
                     call = {"e": "hidden", "f": tgt, "via": draw(st.sampled_from(["globals", "sysmod"]))}
                 else:
                     call = {"e": "call", "f": tgt}
+                    if draw(st.integers(0, 5)) == 0:
+                        call["form"] = "attrchain"
                 body = {"e": "add", "a": body, "b": call}
             d["body"] = body
             defs.append(d)
